@@ -334,3 +334,15 @@ package common
 //@       arg1 == subslice(arrayData, ite(old(arrayData[0]) == 159, int(1), hdrLen(old(arrayData[0]))) + callres(Skip, 0),
 //@                        ite(old(arrayData[0]) == 159, int(1), hdrLen(old(arrayData[0]))) + callres(Skip, 0) + callres(Skip, 1))
 //@   loop 0 invariant itemIndex >= 0
+
+// C08: the range check on multi-asset quantities held as arbitrary-precision integers (transaction
+// outputs). It returns nil only if every quantity that is present is a natural number below 2^64 -
+// for every policy and asset name, whatever the iteration order of the two maps.
+//@ func (m *MultiAsset[MultiAssetTypeOutput]) CheckQuantityRange() (err)
+//@   props C08
+//@   pure
+//@   ensures range: err == nil && m != nil ==> forall p Blake2b224, a cbor.ByteString :: p in m.data && a in m.data[p] && m.data[p][a] != nil ==>
+//@       0 <= val(m.data[p][a]) && val(m.data[p][a]) < 18446744073709551616
+//@   loop 0 invariant forall p Blake2b224, a cbor.ByteString :: visited[p] && p in m.data && a in m.data[p] && m.data[p][a] != nil ==>
+//@       0 <= val(m.data[p][a]) && val(m.data[p][a]) < 18446744073709551616
+//@   loop 1 invariant forall a cbor.ByteString :: visited[a] && a in assets && assets[a] != nil ==> 0 <= val(assets[a]) && val(assets[a]) < 18446744073709551616
